@@ -125,9 +125,23 @@ def run(ctx) -> None:
     addon = repo.method('EconomicsAddOns', 'Calculate')
     n4 = 0
     series4 = set()
-    for s in loop_stores(addon.node):
+    from gxstat.inline import canonical_function
+    # a local bound once to one of the module's own series (`cum = self.ProjectCummCashFlow.value`) is that series
+    cfn = canonical_function(addon.node, unnest=False)
+    for s in loop_stores(cfn):
         if s.key.startswith('self.'):
             continue
+        if '.' not in s.key:
+            # a plain local: a freshly built container (`cum = [0.0] * n`, np.zeros(...), a copy) is the module's own; anything else
+            # might be a base series under another name
+            dfs = [x.value for x in ast.walk(cfn) if isinstance(x, ast.Assign) and len(x.targets) == 1 and norm(x.targets[0]) == s.key]
+            fresh = bool(dfs) and all(isinstance(v, (ast.List, ast.ListComp, ast.Dict)) or
+                                      (isinstance(v, ast.BinOp) and isinstance(v.op, ast.Mult) and any(isinstance(z, ast.List) for z in (v.left, v.right))) or
+                                      (isinstance(v, ast.Call) and ((dotted_name(v.func) or '').split('.')[-1] in ('zeros', 'ones', 'empty', 'full', 'list', 'copy', 'deepcopy', 'array')))
+                                      for v in dfs)
+            if fresh:
+                continue
+            raise AnalysisError(f'EconomicsAddOns.Calculate: element stores into the local `{s.key}` whose origin is not recognised (idiom changed)')
         n4 += 1
         series4.add(s.key)
         key = f'EconomicsAddOns.Calculate/{s.key}'
